@@ -86,6 +86,11 @@ type program struct {
 	Idx   int        `json:"idx"`
 	Calls []callSpec `json:"calls"`
 	Wasm  []byte     `json:"wasm,omitempty"`
+	// Route: how the guest reaches the WASI functions: "" = direct calls; "indirect" = call_indirect through a table
+	// holding the imports; ViaApp: `run` is not called by the embedder but by ANOTHER guest module (`app`, instantiated
+	// with a rich, non-default configuration) that imports it: the default-configured module's calls are still its own.
+	Route  string `json:"route,omitempty"`
+	ViaApp bool   `json:"via_app,omitempty"`
 }
 
 func le32(v uint32) []byte { b := make([]byte, 4); binary.LittleEndian.PutUint32(b, v); return b }
@@ -417,12 +422,30 @@ func genProgram(r *rand.Rand, idx, kind int) program {
 		g.allowTrap = trapLast && i == len(seq)-1
 		p.Calls = append(p.Calls, g.gen(fi))
 	}
-	p.Wasm = buildWasm(p.Calls)
+	switch idx % 4 {
+	case 1:
+		p.Route = "indirect"
+	case 2:
+		p.ViaApp = true
+	case 3:
+		p.Route, p.ViaApp = "indirect", true
+	}
+	p.Wasm = buildWasmRoute(p.Calls, p.Route)
 	return p
 }
 
+func buildWasm(calls []callSpec) []byte { return buildWasmRoute(calls, "") }
+
+// appWasm: a module that imports <lib>.run and exports a run that calls it (the embedder's entry module of a ViaApp program).
+func appWasm(lib string) []byte {
+	m := wb.New()
+	f := m.ImportFunc(lib, "run", nil, nil)
+	m.AddFunc(wb.Func{Export: "run", Body: wb.Call(f)})
+	return m.Bytes()
+}
+
 // buildWasm compiles the call list into a guest module importing all of wasi_snapshot_preview1.
-func buildWasm(calls []callSpec) []byte {
+func buildWasmRoute(calls []callSpec, route string) []byte {
 	if len(calls) > maxCalls {
 		panic("too many calls")
 	}
@@ -444,6 +467,27 @@ func buildWasm(calls []callSpec) []byte {
 	}
 	mx := uint32(memPages)
 	m.Memory(memPages, &mx, false, "memory")
+	typeOf := make([]uint32, len(fns))
+	if route == "indirect" {
+		// table slot k holds import k
+		n := uint32(len(fns))
+		m.Table(n, &n)
+		for k, f := range fns {
+			var ps []wasm.ValueType
+			for _, ch := range f.Params {
+				if ch == 'i' {
+					ps = append(ps, wb.I32)
+				} else {
+					ps = append(ps, wb.I64)
+				}
+			}
+			var rs []wasm.ValueType
+			if !f.NoRes {
+				rs = []wasm.ValueType{wb.I32}
+			}
+			typeOf[k] = m.TypeIdx(ps, rs)
+		}
+	}
 	var body []byte
 	for i, c := range calls {
 		fi := fnIndex(c.Fn)
@@ -473,7 +517,14 @@ func buildWasm(calls []callSpec) []byte {
 				one = append(one, wb.I64Const(int64(c.Args[k]))...)
 			}
 		}
-		one = append(one, wb.Call(uint32(fi))...)
+		if route == "indirect" {
+			one = append(one, wb.I32Const(int32(fi))...)
+			one = append(one, wasm.OpcodeCallIndirect)
+			one = append(one, wb.U32(typeOf[fi])...)
+			one = append(one, 0)
+		} else {
+			one = append(one, wb.Call(uint32(fi))...)
+		}
 		if !f.NoRes {
 			one = append(one, wb.MemArg(wasm.OpcodeI32Store, 2, 0)...)
 		}
@@ -494,5 +545,12 @@ func buildWasm(calls []callSpec) []byte {
 		}
 	}
 	m.AddFunc(wb.Func{Locals: []wasm.ValueType{wb.I32}, Body: body, Export: "run"})
+	if route == "indirect" {
+		items := make([]int64, len(fns))
+		for k := range items {
+			items[k] = int64(k)
+		}
+		return m.BytesWithSegments([]wb.Elem{{Offset: 0, Init: items}})
+	}
 	return m.Bytes()
 }
